@@ -1853,3 +1853,10 @@ func lemmaSliceConcat(seq Sequence, c int) Sequence {
 //@   prop C05
 //@   ensures is(out, Complemented) && is(out.(Complemented).Location, Ambiguous) && out.(Complemented).Location.(Ambiguous) == ambiguous
 //@   assigns nothing
+
+// Copy is shallow: the same metadata, feature table and residues in a new record value.
+//@ func Copy(seq Sequence) (out BasicSequence)
+//@   prop C11 C15
+//@   requires !isnil(seq)
+//@   ensures sameslice(out.data, bytesOf(seq)) && sameslice(out.table, featsOf(seq)) && out.info == infoOf(seq)
+//@   assigns nothing
